@@ -132,15 +132,22 @@ def decode_attr(code, value):
     return cls.parse(value)
 
 
-def roundtrip(w, code, raw_items, endpoint='json_to_bin'):
-    """raw_items: list of element encodings of one attribute. Returns (symptom or None, detail)"""
+def roundtrip(w, code, raw_items, endpoint='json_to_bin', comma=False):
+    """raw_items: list of element encodings of one attribute. Returns (symptom or None, detail).
+    comma: post the elements in the REST interface's list syntax 'route-target:a:b,c:d' (one string, key written once)"""
     value = b''.join(raw_items)
     st, texts, steps = budget.run(50000, decode_attr, code, value)
     if st != 'ok':
         return 'decoder cannot render the value: %s' % ('overrun' if st == 'overrun' else type(texts).__name__), {'error': str(texts)[:200]}
     if len(texts) != len(raw_items) or not all(isinstance(t, str) for t in texts):
         return 'decoder rendered %r' % (texts,), None
-    body = {'attr': {'1': 0, '2': [], '3': '10.0.0.1', str(code): texts}, 'nlri': ['10.9.0.0/16']}
+    posted = texts
+    if comma:
+        keys = set(t.split(':', 1)[0] for t in texts)
+        if len(keys) != 1:
+            return None, None
+        posted = [keys.pop() + ':' + ','.join(t.split(':', 1)[1] for t in texts)]
+    body = {'attr': {'1': 0, '2': [], '3': '10.0.0.1', str(code): posted}, 'nlri': ['10.9.0.0/16']}
     if endpoint == 'send/update':
         # the second REST view has its own copy of the text -> value code: read what it put on the wire
         t = w.readable()[0].transport
@@ -190,6 +197,9 @@ def roundtrip(w, code, raw_items, endpoint='json_to_bin'):
 LOCAL_CFGS = {'x': None, 'as4-off': {'four_bytes_as': False}, 'caps-off': {'route_refresh': False, 'cisco_route_refresh': False, 'graceful_restart': False}}
 
 
+COMMA_KINDS = {'route-target': ('0002', '0102', '0202'), 'route-origin': ('0003', '0103', '0203')}      # type codes: 2-octet AS, IPv4, 4-octet AS
+
+
 def oversize_posts(w):
     """lists too long for one attribute without the extended-length form (64 / 300 communities, 40 extended, 30 large): the agent
     may refuse or encode them - what matters is that the posts of this task that follow are handled as in a fresh process"""
@@ -213,9 +223,10 @@ def task(args):
     oversize_posts(w)
     for entry in items:
         code, labels, raws = entry
+        comma = bool(labels) and labels[-1] == 'comma-list'
         for endpoint in ('json_to_bin', 'send/update'):
             n += 1
-            sym, det = roundtrip(w, code, raws, endpoint)
+            sym, det = roundtrip(w, code, raws, endpoint, comma)
             classes.add((code, labels, endpoint, sym))
             if sym:
                 d = {'attr': code, 'kinds': labels, 'bytes': [r.hex() for r in raws], 'endpoint': endpoint}
@@ -254,7 +265,17 @@ def run(tier, seed):
     longs = [(8, ('n=%d' % k,), cvals[:k]) for k in (50, 51, 60, 63)]
     longs.append((16, ('n=31',), [bytes.fromhex('0002fde9') + struct.pack('!I', i) for i in range(31)]))
     longs.append((32, ('n=21',), [struct.pack('!III', 65001, 1, i) for i in range(21)]))
-    items = singles + pairs + longs
+    # the list syntax of the REST interface (key once, values separated by commas): every ordered pair and triple of the three
+    # route-target / route-origin forms (2-octet AS, IPv4 address, 4-octet AS), first and last value of each
+    commas = []
+    for base in ('route-target', 'route-origin'):
+        forms = [reps[k] for k in COMMA_KINDS[base]]
+        picks = [f[0] for f in forms] + [f[-1] for f in forms]
+        for a, b in itertools.permutations(picks, 2):
+            commas.append((16, (base, 'comma-list'), [a, b]))
+        for a, b, c in itertools.permutations([f[len(f) // 2] for f in forms], 3):
+            commas.append((16, (base, 'comma-list'), [a, b, c]))
+    items = singles + pairs + longs + commas
     tasks = [('x', items[i:i + 150]) for i in range(0, len(items), 150)]
     for kind in ('as4-off', 'caps-off'):
         tasks += [(kind, singles[i:i + 150]) for i in range(0, len(singles), 150)]
